@@ -27,7 +27,10 @@ import (
 
 // C01 — tampered or mismatched proofs are rejected by the verifier circuit.
 
-var c01Perts = []string{"plus1", "minus1", "rand", "swap", "zero"}
+// "structured": a difference a weakened comparison / absorption could be blind to (chosen by
+// the pseudo-random value): multiples of 2^32 for Goldilocks values; chunk, limb and modulus
+// sized steps (2^56, 2^64, 2^112, 2^128, 2^168, 2^192, 2^224, the Goldilocks prime) for hashes.
+var c01Perts = []string{"plus1", "minus1", "rand", "swap", "zero", "structured"}
 
 const roundPrefix = "Proof.OpeningProof.QueryRoundProofs["
 
@@ -59,6 +62,19 @@ func perturb(l circ.Leaf, pert string, next *circ.Leaf, rnd *big.Int) (*big.Int,
 		n = new(big.Int).Set(rnd)
 	case "zero":
 		n = big.NewInt(0)
+	case "structured":
+		k := int(new(big.Int).Mod(rnd, big.NewInt(1<<20)).Int64())
+		var d *big.Int
+		if l.GL {
+			d = []*big.Int{pow2(32), new(big.Int).Sub(pow2(32), big.NewInt(1)), new(big.Int).Sub(bigP, pow2(32)), pow2(63), pow2(48)}[k%5]
+		} else {
+			d = []*big.Int{pow2(56), pow2(64), pow2(112), pow2(128), pow2(168), pow2(192), pow2(224), bigP, new(big.Int).Lsh(bigP, 224), new(big.Int).Lsh(bigP, 56)}[k%10]
+		}
+		if (k/16)%2 == 1 {
+			n = new(big.Int).Sub(v, d)
+		} else {
+			n = new(big.Int).Add(v, d)
+		}
 	case "swap":
 		if next == nil {
 			return nil, false
@@ -324,7 +340,7 @@ func init() {
 					for j := 0; j < nRounds; j++ {
 						for k := 0; k < perRound; k++ {
 							l := roundLeaves[j][r.Intn(len(roundLeaves[j]))]
-							pert := c01Perts[r.Intn(3)]
+							pert := []string{"plus1", "minus1", "rand", "structured"}[r.Intn(4)]
 							_, rel, _ := splitRoundPath(l.Path)
 							cs = append(cs, fw.Case{ID: fmt.Sprintf("xcheck/%s/%s/%s", name, l.Path, pert), Kind: "xcheck", P: map[string]any{"inst": name, "j": j, "rel": rel, "path": l.Path, "pert": pert, "leafkind": l.Kind}})
 						}
@@ -558,7 +574,7 @@ func init() {
 					ls := c01Leaves(t)
 					r := ctx.Rand(c.ID)
 					l := ls[r.Intn(len(ls))]
-					pert := c01Perts[r.Intn(3)]
+					pert := []string{"plus1", "minus1", "rand", "structured"}[r.Intn(4)]
 					changed, desc := c01Apply(ls, l.Path, pert, ctx, c.ID)
 					if !changed {
 						return fw.Outcome{Trivial: true}
